@@ -163,9 +163,9 @@ class Run(object):
                 if now.meta != s.snap.meta:
                     bad = {"meta_before": s.snap.meta, "meta_after": now.meta}
                 else:
-                    rd = M.rel_diff(now.dense, s.snap.dense)
-                    if not (rd <= TOL_O1):
-                        bad = {"rel_diff": rd, "meta": s.snap.meta}
+                    df, err = s.snap.differs(now.dense, TOL_O1)
+                    if df:
+                        bad = {"error": err, "norm": s.snap.norm, "meta": s.snap.meta}
             if bad is None:
                 continue
             role = [r for r, j in roles.items() if j == i]
